@@ -45,8 +45,11 @@ func stubTarNext(tr *tar.Reader) (*tar.Header, error) {
 	e := stubEntries[stubPos]
 	stubPos++
 	tf := e.typeflag
-	if tf == tar.TypeReg && strings.HasSuffix(e.name, "/") {
-		tf = tar.TypeDir // what the real reader does with a regular entry named like a directory
+	if tf == tar.TypeRegA { // what the real reader does with the legacy regular-file flag
+		tf = tar.TypeReg
+		if strings.HasSuffix(e.name, "/") {
+			tf = tar.TypeDir
+		}
 	}
 	return &tar.Header{Name: e.name, Typeflag: tf, Size: e.size, Mode: 0o644}, nil
 }
@@ -132,7 +135,7 @@ func hasDotDotSegment(p string) bool {
 func H16Names() {
 	n := ndIntRange("n", 1, vBound("namelen", 6))
 	name := ndStringIn("name", n, "ab./\\:C")
-	tf := []byte{tar.TypeReg, tar.TypeSymlink, tar.TypeDir, tar.TypeXGlobalHeader}[ndChoice("typeflag", 4)]
+	tf := []byte{tar.TypeReg, tar.TypeSymlink, tar.TypeDir, tar.TypeXGlobalHeader, tar.TypeRegA}[ndChoice("typeflag", 5)]
 	files, err := loadEntries([]stubEntry{{name: name, typeflag: tf, size: 0}})
 	if err != nil {
 		vAssert("names/rejected-has-no-files", len(files) == 0)
